@@ -90,6 +90,7 @@ type Interp struct {
 	retVal   Val
 	// test bookkeeping
 	TestTotal, TestFails int
+	TestMsgs             []string // message expected with each failed test ("" none, "\x00" undefined)
 	FailFast             bool
 	NoTestSummary        bool
 	testErrs             int
